@@ -640,5 +640,588 @@ theorem load_recase_core (A : N → N → Prop) {d d' : Desc N}
 
 end Load
 
+/-- unit lists of a re-cased description, from the flat reading: capability occurrences in description order -/
+theorem unitsRel_of_flat {N : Type} (fold : N → N) (A : N → N → Prop) : ∀ (P : List N) (us us' : List (UnitD N)),
+    Forall2 (fun u u' => u.name = u'.name ∧ u.width = u'.width ∧ u.rd = u'.rd ∧ u.wr = u'.wr ∧
+      u.caps.length = u'.caps.length ∧ Forall2 A u.acl u'.acl) us us' →
+    RecasedFrom fold P (us.flatMap (·.caps)) (us'.flatMap (·.caps)) → UnitsRel fold A P us us'
+  | _, [], [], _, _ => trivial
+  | _, [], _ :: _, h, _ => h.elim
+  | _, _ :: _, [], h, _ => h.elim
+  | P, u :: us, v :: vs, h, hc => by
+    obtain ⟨⟨h1, h2, h3, h4, h5, h6⟩, hrest⟩ := h
+    simp only [List.flatMap_cons] at hc
+    rw [RecasedFrom.append_iff fold h5] at hc
+    exact ⟨h1, h2, h3, h4, hc.1, h6, unitsRel_of_flat fold A (P ++ u.caps) us vs hrest hc.2⟩
+
+/-! ## §6 instruction sets -/
+
+section IsaS
+attribute [local implicit_reducible] ProcSim.AMap
+open ICase (lower upper)
+open Isa (Str IsaError CompileError createIsa loadIsa compileProgram)
+
+/-- two results agree: values related by `S`, or errors related by `R` -/
+def ExRel2 {ε α : Type} (R : ε → ε → Prop) (S : α → α → Prop) : Except ε α → Except ε α → Prop
+  | .ok a, .ok b => S a b
+  | .error e, .error e' => R e e'
+  | _, _ => False
+
+/-- the same error of `load_isa`, the texts it carries equal up to case -/
+def IsaErrSame : IsaError → IsaError → Prop
+  | .dupInstr o n, .dupInstr o' n' => lower o = lower o' ∧ lower n = lower n'
+  | .undefCap c, .undefCap c' => lower c = lower c'
+  | _, _ => False
+
+/-- an instruction set with re-cased capability values (and mnemonics) -/
+abbrev IsaEntrySame (e e' : Str × Str) : Prop := lower e.1 = lower e'.1 ∧ lower e.2 = lower e'.2
+
+def OptSame : Option Str → Option Str → Prop
+  | some a, some b => lower a = lower b
+  | none, none => True
+  | _, _ => False
+
+theorem get?_set (m : AMap Str Str) (k v k' : Str) :
+    AMap.get? (AMap.set m k v) k' = if k = k' then some v else AMap.get? m k' := by
+  by_cases h : k = k'
+  · subst h; simp
+  · simp [h, AMap.get?_set_ne m v h]
+
+theorem createIsa_recase (capReg : Isa.Registry) : ∀ (l l' : List (Str × Str)) (ir ir' acc : AMap Str Str),
+    Forall2 IsaEntrySame l l' → (∀ k, OptSame (AMap.get? ir k) (AMap.get? ir' k)) →
+    ExRel IsaErrSame (createIsa capReg ir acc l) (createIsa capReg ir' acc l')
+  | [], [], _, _, _, _, _ => rfl
+  | [], _ :: _, _, _, _, h, _ => h.elim
+  | _ :: _, [], _, _, _, h, _ => h.elim
+  | (i, c) :: l, (i', c') :: l', ir, ir', acc, h, hr => by
+    obtain ⟨⟨hi, hc⟩, hrest⟩ := h
+    simp only at hi hc
+    have hu : upper i = upper i' := IsaLemmas.upper_eq_iff_lower_eq.2 hi
+    simp only [createIsa, ← hi, ← hc, ← hu]
+    have hk := hr (lower i)
+    revert hk
+    cases AMap.get? ir (lower i) with
+    | some o =>
+      cases AMap.get? ir' (lower i) with
+      | some o' => intro hk; exact ⟨hk, hi⟩
+      | none => exact fun h => False.elim h
+    | none =>
+      cases AMap.get? ir' (lower i) with
+      | some o' => exact fun h => False.elim h
+      | none =>
+        intro _
+        simp only
+        cases AMap.get? capReg (lower c) with
+        | none => exact hc
+        | some std =>
+          refine createIsa_recase capReg l l' _ _ _ hrest ?_
+          intro k
+          rw [get?_set, get?_set]
+          by_cases hk : lower i = k
+          · simp only [hk, ↓reduceIte]; exact hi
+          · simp only [hk, ↓reduceIte]; exact hr k
+
+end IsaS
+
+/-! ## §7 programs -/
+
+section Prog
+attribute [local implicit_reducible] ProcSim.AMap
+open ICase (lower upper)
+open Program Spec.Text ProgramLemmas
+open Isa (CompileError compileProgram)
+
+/-- the instruction `read_program` returns for a written one -/
+def toProg (w : Written) : ProgInstr := { srcs := sortedUniq w.srcs, dst := w.dst, name := w.name, line := w.line }
+
+/-- **C14 in exact form**: the parser's answer *is* the meaning of the written list (sources as sorted sets) -/
+theorem readLines_render_eq (tail : List (List Char)) (htail : ∀ b ∈ tail, Blank b) (is : List SrcInstr) :
+    ∀ (ws : List LineWs) (seen : List (List Char)) (reg : Registry) (n : Nat), RegInv reg seen →
+      (∀ i ∈ is, instrOK i = true) → (∀ w ∈ ws, wsOK w = true) →
+      readLines reg n (renderProgram is ws tail) = (expectedFrom seen n is ws).map (List.map toProg) := by
+  induction is with
+  | nil =>
+    intro ws seen reg n _ _ _
+    have h1 : renderProgram [] ws tail = tail := by cases ws <;> rfl
+    have h2 : expectedFrom seen n [] ws = .ok [] := by cases ws <;> rfl
+    rw [h1, h2, readLines_all_blank reg n tail htail]
+    rfl
+  | cons i is ih =>
+    intro ws seen reg n hinv his hws
+    obtain ⟨hname, hopnd⟩ := instrOK_iff.1 (his i (by simp))
+    obtain ⟨hbl, hpre, hsep, hsne, hcs, hpost⟩ := wsOK_iff.1 (wsOK_headD hws)
+    have his' : ∀ j ∈ is, instrOK j = true := fun j hj => his j (List.mem_cons_of_mem _ hj)
+    rw [renderProgram_cons, readLines_blanks reg _ _ n hbl]
+    generalize hln : n + (ws.headD {}).blanks.length = ln
+    have hstep : ∀ rest, readLines reg ln (renderLine i (ws.headD {}) :: rest) =
+        match createInstr ln (strip (renderLine i (ws.headD {}))) reg with
+        | .error e => .error e
+        | .ok (ins, reg') =>
+          match readLines reg' (ln + 1) rest with
+          | .error e => .error e
+          | .ok r => .ok (ins :: r) := by
+      intro rest
+      rw [readLines]
+      simp only [strip_renderLine_ne_nil i _ hname hpre hpost, Bool.false_eq_true, ↓reduceIte]
+      rfl
+    rw [hstep]
+    by_cases hno : i.ops = [] ∨ i.ops = [[]]
+    · rw [createInstr_render_noOps i _ ln reg hname hpre hsep hpost hno, expectedFrom_noOps seen n i is ws hno, hln]
+      rfl
+    · obtain ⟨o, os, hops, hne⟩ : ∃ o os, i.ops = o :: os ∧ ¬ (o = [] ∧ os = []) := by
+        cases h : i.ops with
+        | nil => exact absurd (.inl h) hno
+        | cons o os => exact ⟨o, os, rfl, fun e => hno (.inr (by rw [h, e.1, e.2]))⟩
+      have hop : ∀ x ∈ o :: os, Opnd x := fun x hx => (hopnd x (hops ▸ hx)).1
+      rw [createInstr_render_ops i _ ln reg o os hname hpre hsep hsne hcs hpost hops hop hne,
+        expectedFrom_ops seen n i is ws o os hops hne, hln]
+      cases hfe : firstEmpty 1 (o :: os) with
+      | some k =>
+        rw [createOps_error ln i.name o os reg k hfe]
+        rfl
+      | none =>
+        obtain ⟨reg', hc, hinv'⟩ := createOps_ok ln i.name o os reg seen hfe hinv
+        rw [hc]
+        simp only [ih ws.tail (seen ++ o :: os) reg' (ln + 1) hinv' his' (wsOK_tail hws)]
+        cases expectedFrom (seen ++ o :: os) (ln + 1) is ws.tail <;> rfl
+
+/-- `read_program` on a rendered text, in exact form -/
+theorem readProgram_render (is : List SrcInstr) (ws : List LineWs) (tail : List (List Char))
+    (his : ∀ i ∈ is, instrOK i = true) (hws : ∀ w ∈ ws, wsOK w = true) (htail : ∀ l ∈ tail, blankB l = true) :
+    readProgram (renderProgram is ws tail) = (expected is ws).map (List.map toProg) :=
+  readLines_render_eq tail (fun b hb => blankB_iff.1 (htail b hb)) is ws [] [] 1 RegInv.nil his hws
+
+/-- the same registry content: every look-up answers alike -/
+def SeenEq (seen seen' : List (List Char)) : Prop :=
+  ∀ x, seen.find? (fun s => lower s == lower x) = seen'.find? (fun s => lower s == lower x)
+
+theorem find?_lower_eq_none {seen : List (List Char)} {x : List Char} :
+    seen.find? (fun s => lower s == lower x) = none ↔ ∀ s ∈ seen, lower s ≠ lower x := by
+  simp [List.find?_eq_none]
+
+theorem seen_step {seen seen' : List (List Char)} {o o' : List Char} (h : SeenEq seen seen')
+    (hf : lower o = lower o') (hfirst : (∀ s ∈ seen, lower s ≠ lower o) → o = o') :
+    firstSpelling seen o = firstSpelling seen' o' ∧ SeenEq (seen ++ [o]) (seen' ++ [o']) := by
+  have hk : seen'.find? (fun s => lower s == lower o') = seen.find? (fun s => lower s == lower o) := by
+    rw [← hf]; exact (h o).symm
+  constructor
+  · unfold firstSpelling
+    rw [hk]
+    cases hfo : seen.find? (fun s => lower s == lower o) with
+    | some s => rfl
+    | none => exact hfirst (find?_lower_eq_none.1 hfo)
+  · intro x
+    rw [List.find?_append, List.find?_append, ← h x, find_single, find_single, ← hf]
+    cases hx : seen.find? (fun s => lower s == lower x) with
+    | some s => rfl
+    | none =>
+      by_cases e : lower o = lower x
+      · have : o = o' := hfirst (by rw [e]; exact find?_lower_eq_none.1 hx)
+        rw [this]
+      · simp [e]
+
+theorem stdOps_recase : ∀ (os os' seen seen' : List (List Char)), RecasedFrom lower seen os os' → SeenEq seen seen' →
+    stdOps seen os = stdOps seen' os' ∧ SeenEq (seen ++ os) (seen' ++ os')
+  | [], [], seen, seen', _, h => ⟨rfl, by simpa using h⟩
+  | [], _ :: _, _, _, h, _ => h.elim
+  | _ :: _, [], _, _, h, _ => h.elim
+  | o :: os, o' :: os', seen, seen', h, hs => by
+    obtain ⟨hf, hfirst, hrest⟩ := h
+    obtain ⟨h1, h2⟩ := seen_step hs hf hfirst
+    obtain ⟨h3, h4⟩ := stdOps_recase os os' (seen ++ [o]) (seen' ++ [o']) hrest h2
+    refine ⟨by simp only [stdOps, h1, h3], ?_⟩
+    simpa using h4
+
+theorem isEmpty_of_lower_eq {o o' : List Char} (h : lower o = lower o') : o.isEmpty = o'.isEmpty := by
+  have := congrArg List.length h
+  simp only [lower, List.length_map] at this
+  cases o <;> cases o' <;> simp_all
+
+theorem firstEmpty_recase : ∀ (os os' : List (List Char)) (k : Nat), Forall2 (SameFold lower) os os' →
+    firstEmpty k os = firstEmpty k os'
+  | [], [], _, _ => rfl
+  | [], _ :: _, _, h => h.elim
+  | _ :: _, [], _, h => h.elim
+  | o :: os, o' :: os', k, h => by
+    simp only [firstEmpty, isEmpty_of_lower_eq h.1, firstEmpty_recase os os' (k + 1) h.2]
+
+/-- written instruction lists related as in a re-cased program: mnemonics equal up to case; operand lists re-cased
+relative to all earlier operand occurrences `seen` -/
+def ProgRel : List (List Char) → List SrcInstr → List SrcInstr → Prop
+  | _, [], [] => True
+  | seen, i :: is, j :: js =>
+    lower i.name = lower j.name ∧ RecasedFrom lower seen i.ops j.ops ∧ ProgRel (seen ++ i.ops) is js
+  | _, _, _ => False
+
+theorem progRel_of_flat : ∀ (P : List (List Char)) (is js : List SrcInstr),
+    Forall2 (fun i j => lower i.name = lower j.name ∧ i.ops.length = j.ops.length) is js →
+    RecasedFrom lower P (is.flatMap (·.ops)) (js.flatMap (·.ops)) → ProgRel P is js
+  | _, [], [], _, _ => trivial
+  | _, [], _ :: _, h, _ => h.elim
+  | _, _ :: _, [], h, _ => h.elim
+  | P, i :: is, j :: js, h, hc => by
+    obtain ⟨⟨h1, h2⟩, hrest⟩ := h
+    simp only [List.flatMap_cons] at hc
+    rw [RecasedFrom.append_iff lower h2] at hc
+    exact ⟨h1, hc.1, progRel_of_flat (P ++ i.ops) is js hrest hc.2⟩
+
+/-- the same meaning of a line but for the letter case of the mnemonic -/
+def WrittenSame (w w' : Written) : Prop :=
+  lower w.name = lower w'.name ∧ w.dst = w'.dst ∧ w.srcs = w'.srcs ∧ w.line = w'.line
+
+/-- the same syntax error: line and operand position equal, mnemonic equal up to case -/
+def ParseErrSame : ParseError → ParseError → Prop
+  | .noOperands l i, .noOperands l' i' => l = l' ∧ lower i = lower i'
+  | .emptyOperand l i k, .emptyOperand l' i' k' => l = l' ∧ lower i = lower i' ∧ k = k'
+  | _, _ => False
+
+theorem ops_nil_or_single_recase {a b : List (List Char)} (h : Forall2 (SameFold lower) a b) :
+    (a = [] ∨ a = [[]]) ↔ (b = [] ∨ b = [[]]) := by
+  match a, b, h with
+  | [], [], _ => simp
+  | [], _ :: _, h => exact h.elim
+  | _ :: _, [], h => exact h.elim
+  | [o], [o'], h =>
+    have := isEmpty_of_lower_eq h.1
+    cases o <;> cases o' <;> simp_all
+  | _ :: _ :: _, [_], h => exact h.2.elim
+  | [_], _ :: _ :: _, h => exact h.2.elim
+  | _ :: _ :: _, _ :: _ :: _, _ => simp
+
+/-- **meaning of a re-cased program**: the same destinations, sources and line numbers, mnemonics equal up to
+case; or the same syntax error -/
+theorem expectedFrom_recase : ∀ (is js : List SrcInstr) (ws : List LineWs) (seen seen' : List (List Char)) (n : Nat),
+    ProgRel seen is js → SeenEq seen seen' →
+    ExRel2 ParseErrSame (Forall2 WrittenSame) (expectedFrom seen n is ws) (expectedFrom seen' n js ws)
+  | [], [], ws, _, _, n, _, _ => by
+    have h2 : ∀ s, expectedFrom s n [] ws = .ok [] := fun s => by cases ws <;> rfl
+    rw [h2, h2]; exact trivial
+  | [], _ :: _, _, _, _, _, h, _ => h.elim
+  | _ :: _, [], _, _, _, _, h, _ => h.elim
+  | i :: is, j :: js, ws, seen, seen', n, h, hs => by
+    obtain ⟨hname, hops, hrest⟩ := h
+    have hfa := RecasedFrom.forall2 lower hops
+    by_cases hno : i.ops = [] ∨ i.ops = [[]]
+    · rw [expectedFrom_noOps seen n i is ws hno, expectedFrom_noOps seen' n j js ws ((ops_nil_or_single_recase hfa).1 hno)]
+      exact ⟨rfl, hname⟩
+    · have hno' : ¬ (j.ops = [] ∨ j.ops = [[]]) := fun h => hno ((ops_nil_or_single_recase hfa).2 h)
+      obtain ⟨o, os, hio, hne⟩ : ∃ o os, i.ops = o :: os ∧ ¬ (o = [] ∧ os = []) := by
+        cases h : i.ops with
+        | nil => exact absurd (.inl h) hno
+        | cons o os => exact ⟨o, os, rfl, fun e => hno (.inr (by rw [h, e.1, e.2]))⟩
+      obtain ⟨o', os', hjo, hne'⟩ : ∃ o os, j.ops = o :: os ∧ ¬ (o = [] ∧ os = []) := by
+        cases h : j.ops with
+        | nil => exact absurd (.inl h) hno'
+        | cons o os => exact ⟨o, os, rfl, fun e => hno' (.inr (by rw [h, e.1, e.2]))⟩
+      rw [expectedFrom_ops seen n i is ws o os hio hne, expectedFrom_ops seen' n j js ws o' os' hjo hne']
+      rw [hio, hjo] at hops hfa
+      rw [firstEmpty_recase _ _ 1 hfa]
+      cases firstEmpty 1 (o' :: os') with
+      | some k => exact ⟨rfl, hname, rfl⟩
+      | none =>
+        obtain ⟨hf, hfirst, hops'⟩ := hops
+        obtain ⟨h1, h2⟩ := seen_step hs hf hfirst
+        obtain ⟨h3, h4⟩ := stdOps_recase os os' _ _ hops' h2
+        have h5 : SeenEq (seen ++ o :: os) (seen' ++ o' :: os') := by simpa using h4
+        rw [hio] at hrest
+        have ih := expectedFrom_recase is js ws.tail (seen ++ o :: os) (seen' ++ o' :: os')
+          (n + (ws.headD {}).blanks.length + 1) hrest h5
+        revert ih
+        simp only
+        cases expectedFrom (seen ++ o :: os) (n + (ws.headD {}).blanks.length + 1) is ws.tail with
+        | error e =>
+          cases expectedFrom (seen' ++ o' :: os') (n + (ws.headD {}).blanks.length + 1) js ws.tail with
+          | error e' => exact id
+          | ok r' => exact fun h => False.elim h
+        | ok r =>
+          cases expectedFrom (seen' ++ o' :: os') (n + (ws.headD {}).blanks.length + 1) js ws.tail with
+          | error e' => exact fun h => False.elim h
+          | ok r' => exact fun ih => ⟨⟨hname, h1, h3, rfl⟩, ih⟩
+
+/-- parsed instructions that agree but for the letter case of the mnemonic -/
+def ProgSame (p p' : ProgInstr) : Prop :=
+  lower p.name = lower p'.name ∧ p.srcs = p'.srcs ∧ p.dst = p'.dst ∧ p.line = p'.line
+
+theorem forall2_toProg : ∀ {l l' : List Written}, Forall2 WrittenSame l l' →
+    Forall2 ProgSame (l.map toProg) (l'.map toProg)
+  | [], [], _ => trivial
+  | [], _ :: _, h => h.elim
+  | _ :: _, [], h => h.elim
+  | _ :: _, _ :: _, h => ⟨⟨h.1.1, by simp only [toProg, h.1.2.2.1], h.1.2.1, h.1.2.2.2⟩, forall2_toProg h.2⟩
+
+/-- the same failure of `compile_program`: the same line, mnemonic equal up to case -/
+def CompErrSame (e e' : CompileError) : Prop := lower e.name = lower e'.name ∧ e.line = e'.line
+
+/-- `compile_program` does not see the letter case of mnemonics -/
+theorem compileProgram_recase (isa : AMap Isa.Str Isa.Str) : ∀ (ps ps' : List ProgInstr), Forall2 ProgSame ps ps' →
+    ExRel CompErrSame (compileProgram isa ps) (compileProgram isa ps')
+  | [], [], _ => rfl
+  | [], _ :: _, h => h.elim
+  | _ :: _, [], h => h.elim
+  | p :: ps, p' :: ps', h => by
+    obtain ⟨⟨hn, hs, hd, hl⟩, hrest⟩ := h
+    have hu : upper p.name = upper p'.name := IsaLemmas.upper_eq_iff_lower_eq.2 hn
+    simp only [compileProgram, ← hu, ← hs, ← hd]
+    cases AMap.get? isa (upper p.name) with
+    | none => exact ⟨hn, hl⟩
+    | some cap =>
+      have ih := compileProgram_recase isa ps ps' hrest
+      revert ih
+      simp only
+      cases compileProgram isa ps with
+      | error e =>
+        cases compileProgram isa ps' with
+        | error e' => exact id
+        | ok r' => exact fun h => False.elim h
+      | ok r =>
+        cases compileProgram isa ps' with
+        | error e' => exact fun h => False.elim h
+        | ok r' => intro ih; simp only [ExRel] at ih; simp only [ExRel, ih]
+
+end Prog
+
+/-! ## §8 the composed pipeline -/
+
+section Pipe
+open ICase (lower)
+open Pipeline (Failure Stages front run cliTable)
+
+/-- the pipeline stopped in the same stage with the same kind of error -/
+def FailSame : Failure → Failure → Prop
+  | .load e, .load e' => ErrSame lower e e'
+  | .isa e, .isa e' => IsaErrSame e e'
+  | .parse e, .parse e' => ParseErrSame e e'
+  | .compile e, .compile e' => CompErrSame e e'
+  | _, _ => False
+
+/-- the same loaded processor, instruction set and compiled program; the parsed instructions agree but for the
+letter case of their (raw) mnemonics -/
+def StagesSame (s s' : Stages) : Prop :=
+  s.proc = s'.proc ∧ s.isa = s'.isa ∧ Forall2 ProgSame s.parsed s'.parsed ∧ s.prog = s'.prog
+
+theorem front_recase {d d' : Desc Pipeline.Str} {isa isa' : List (Pipeline.Str × Pipeline.Str)}
+    {t t' : List Pipeline.Str}
+    (h1 : ExRel (ErrSame lower) (load lower d) (load lower d'))
+    (h2 : ∀ caps, ExRel IsaErrSame (Isa.loadIsa isa caps) (Isa.loadIsa isa' caps))
+    (h3 : ExRel2 ParseErrSame (Forall2 ProgSame) (Program.readProgram t) (Program.readProgram t')) :
+    ExRel2 FailSame StagesSame (front d isa t) (front d' isa' t') := by
+  unfold front
+  revert h1
+  cases load lower d with
+  | error e =>
+    cases load lower d' with
+    | error e' => exact id
+    | ok p' => exact fun h => False.elim h
+  | ok p =>
+    cases load lower d' with
+    | error e' => exact fun h => False.elim h
+    | ok p' =>
+      intro h1
+      simp only [ExRel] at h1
+      subst h1
+      simp only
+      have h2' := h2 (Isa.getAbilitiesProc p)
+      revert h2'
+      cases Isa.loadIsa isa (Isa.getAbilitiesProc p) with
+      | error e =>
+        cases Isa.loadIsa isa' (Isa.getAbilitiesProc p) with
+        | error e' => exact id
+        | ok m' => exact fun h => False.elim h
+      | ok m =>
+        cases Isa.loadIsa isa' (Isa.getAbilitiesProc p) with
+        | error e' => exact fun h => False.elim h
+        | ok m' =>
+          intro h2'
+          simp only [ExRel] at h2'
+          subst h2'
+          simp only
+          revert h3
+          cases Program.readProgram t with
+          | error e =>
+            cases Program.readProgram t' with
+            | error e' => exact id
+            | ok ps' => exact fun h => False.elim h
+          | ok ps =>
+            cases Program.readProgram t' with
+            | error e' => exact fun h => False.elim h
+            | ok ps' =>
+              intro h3
+              simp only [ExRel2] at h3
+              simp only
+              have h4 := compileProgram_recase m ps ps' h3
+              revert h4
+              cases Isa.compileProgram m ps with
+              | error e =>
+                cases Isa.compileProgram m ps' with
+                | error e' => exact id
+                | ok r' => exact fun h => False.elim h
+              | ok r =>
+                cases Isa.compileProgram m ps' with
+                | error e' => exact fun h => False.elim h
+                | ok r' =>
+                  intro h4
+                  simp only [ExRel] at h4
+                  subst h4
+                  exact ⟨rfl, rfl, h3, rfl⟩
+
+/-- the same stages and the same simulation outcome -/
+def RunSame (x y : Stages × Outcome Pipeline.Str) : Prop :=
+  StagesSame x.1 y.1 ∧
+    match x.2, y.2 with
+    | .done a, .done b => a = b
+    | .stall a, .stall b => a = b
+    | .fault a, .fault b => a = b
+    | _, _ => False
+
+theorem run_recase {d d' : Desc Pipeline.Str} {isa isa' : List (Pipeline.Str × Pipeline.Str)}
+    {t t' : List Pipeline.Str} (h : ExRel2 FailSame StagesSame (front d isa t) (front d' isa' t')) :
+    ExRel2 FailSame RunSame (run d isa t) (run d' isa' t') := by
+  unfold run
+  revert h
+  cases front d isa t with
+  | error e =>
+    cases front d' isa' t' with
+    | error e' => exact id
+    | ok s' => exact fun h => False.elim h
+  | ok s =>
+    cases front d' isa' t' with
+    | error e' => exact fun h => False.elim h
+    | ok s' =>
+      intro h
+      refine ⟨h, ?_⟩
+      obtain ⟨hp, -, -, hg⟩ := h
+      simp only [hp, hg]
+      cases simulate s'.proc s'.prog <;> rfl
+
+theorem cliTable_recase {d d' : Desc Pipeline.Str} {isa isa' : List (Pipeline.Str × Pipeline.Str)}
+    {t t' : List Pipeline.Str} (h : ExRel2 FailSame RunSame (run d isa t) (run d' isa' t')) :
+    cliTable d isa t = cliTable d' isa' t' := by
+  unfold cliTable
+  revert h
+  cases run d isa t with
+  | error e =>
+    cases run d' isa' t' with
+    | error e' => intro _; rfl
+    | ok s' => exact fun h => False.elim h
+  | ok s =>
+    cases run d' isa' t' with
+    | error e' => exact fun h => False.elim h
+    | ok s' =>
+      obtain ⟨st, o⟩ := s
+      obtain ⟨st', o'⟩ := s'
+      intro h
+      obtain ⟨hs, ho⟩ := h
+      have hlen : st.parsed.length = st'.parsed.length := Forall2.length_eq hs.2.2.1
+      cases o <;> cases o' <;> simp only at ho <;> first | exact False.elim ho | (subst ho; simp only [hlen])
+
+end Pipe
+
+/-! ## §9 re-casing keeps a written program well-formed (blanks and commas are not letters) -/
+
+section WellFormed
+open ICase (lower)
+open Program (isWs)
+open Spec.Text (SrcInstr nameOK tokOK instrOK)
+
+theorem toLower_toNat (c : Char) :
+    c.toLower.toNat = if 65 ≤ c.toNat ∧ c.toNat ≤ 90 then c.toNat + 32 else c.toNat := by
+  unfold Char.toLower
+  have hA : 'A'.val.toNat = 65 := by decide
+  have hZ : 'Z'.val.toNat = 90 := by decide
+  have ha : ('a'.val - 'A'.val).toNat = 32 := by decide
+  split
+  · next h =>
+    have h1 := UInt32.le_iff_toNat_le.1 h.1
+    have h2 := UInt32.le_iff_toNat_le.1 h.2
+    rw [hA] at h1; rw [hZ] at h2
+    have : 65 ≤ c.toNat ∧ c.toNat ≤ 90 := ⟨h1, h2⟩
+    rw [if_pos this]
+    show (c.val + ('a'.val - 'A'.val)).toNat = c.val.toNat + 32
+    rw [UInt32.toNat_add, ha]
+    have : c.val.toNat ≤ 90 := h2
+    omega
+  · next h =>
+    have : ¬ (65 ≤ c.toNat ∧ c.toNat ≤ 90) := by
+      intro h'
+      apply h
+      exact ⟨UInt32.le_iff_toNat_le.2 (by rw [hA]; exact h'.1), UInt32.le_iff_toNat_le.2 (by rw [hZ]; exact h'.2)⟩
+    rw [if_neg this]
+
+theorem isWs_toLower (c : Char) : isWs c.toLower = isWs c := by
+  simp only [isWs, toLower_toNat]
+  split
+  · next h =>
+    have h1 : ¬ (c.toNat ≤ 13) := by omega
+    have h2 : ¬ (c.toNat ≤ 32) := by omega
+    have h3 : ¬ (c.toNat + 32 ≤ 13) := by omega
+    have h4 : ¬ (c.toNat + 32 ≤ 32) := by omega
+    simp [h1, h2, h3, h4]
+  · rfl
+
+theorem comma_toLower (c : Char) : (c.toLower = ',') ↔ (c = ',') := by
+  have h := toLower_toNat c
+  have hc : (',' : Char).toNat = 44 := by decide
+  constructor
+  · intro e
+    rw [e, hc] at h
+    apply Char.toNat_inj.1
+    rw [hc]
+    split at h <;> omega
+  · intro e
+    subst e
+    decide
+
+theorem all_of_lower_eq (p : Char → Bool) (hp : ∀ c : Char, p c.toLower = p c) : ∀ {t t' : List Char},
+    lower t = lower t' → t.all p = t'.all p
+  | [], [], _ => rfl
+  | [], _ :: _, h => by simp [lower] at h
+  | _ :: _, [], h => by simp [lower] at h
+  | c :: t, c' :: t', h => by
+    simp only [lower, List.map_cons, List.cons.injEq] at h
+    simp only [List.all_cons, all_of_lower_eq p hp (t := t) (t' := t') h.2]
+    rw [← hp c, ← hp c', h.1]
+
+theorem nameOK_of_lower_eq {t t' : List Char} (h : lower t = lower t') : nameOK t = nameOK t' := by
+  unfold nameOK
+  rw [isEmpty_of_lower_eq h, all_of_lower_eq (fun c => !isWs c) (fun c => by simp only [isWs_toLower]) h]
+
+theorem bne_comma_toLower (c : Char) : (c.toLower != ',') = (c != ',') := by
+  by_cases hc : c = ','
+  · subst hc; decide
+  · have h2 : c.toLower ≠ ',' := fun e => hc ((comma_toLower c).1 e)
+    rw [bne_iff_ne.2 h2, bne_iff_ne.2 hc]
+
+theorem tokOK_of_lower_eq {t t' : List Char} (h : lower t = lower t') : tokOK t = tokOK t' := by
+  unfold tokOK
+  rw [isEmpty_of_lower_eq h, all_of_lower_eq (fun c => !isWs c && c != ',') (fun c => by
+    simp only [isWs_toLower, bne_comma_toLower]) h]
+
+theorem all_of_forall2 {α : Type} {R : α → α → Prop} {q : α → Bool} (hq : ∀ a b, R a b → q a = q b) :
+    ∀ {l l' : List α}, Forall2 R l l' → l.all q = l'.all q
+  | [], [], _ => rfl
+  | [], _ :: _, h => h.elim
+  | _ :: _, [], h => h.elim
+  | _ :: _, _ :: _, h => by simp only [List.all_cons, hq _ _ h.1, all_of_forall2 hq h.2]
+
+theorem instrOK_recase {i j : SrcInstr} (hn : lower i.name = lower j.name)
+    (ho : Forall2 (SameFold lower) i.ops j.ops) : instrOK i = instrOK j := by
+  unfold instrOK
+  rw [nameOK_of_lower_eq hn, all_of_forall2 (q := fun o => o.isEmpty || tokOK o)
+    (fun a b h => by simp only [isEmpty_of_lower_eq h, tokOK_of_lower_eq h]) ho]
+
+theorem progRel_instrOK : ∀ {P : List (List Char)} {is js : List SrcInstr}, ProgRel P is js →
+    (∀ i ∈ is, instrOK i = true) → ∀ j ∈ js, instrOK j = true
+  | _, [], [], _, _ => fun _ h => by simp at h
+  | _, [], _ :: _, h, _ => h.elim
+  | _, _ :: _, [], h, _ => h.elim
+  | _, i :: is, j :: js, h, hok => by
+    intro x hx
+    rcases List.mem_cons.1 hx with rfl | hx
+    · rw [← instrOK_recase h.1 (RecasedFrom.forall2 lower h.2.1)]
+      exact hok i List.mem_cons_self
+    · exact progRel_instrOK h.2.2 (fun i hi => hok i (List.mem_cons_of_mem _ hi)) x hx
+
+end WellFormed
+
 end Recase
 end ProcSim
